@@ -44,6 +44,9 @@ def grammars():
         # routes are not compared for this grammar.)
         'builtin-named-class': grammar(rule('s', seq(named('l', call('y')), named('r', opt(call('z')))), typ=['Root']),
                                        rule('y', named('v', ab), typ=['Warning', 'Diag']), rule('z', named('w', p), typ=['Diag'])),
+        # element names that are members of dict (items, keys): the AST spells them items_ / keys_; whatever the spelling, the classes
+        # of the generated model module must give the same tree as the synthesized ones (the routes are compared with each other)
+        'dict-member-names': grammar(rule('s', seq(named('items', call('y')), named('keys', opt(call('y')))), typ=['Root']), leaf()),
         'deep': grammar(rule('s', seq(named('c', call('m')), opt(b)), typ=['Root']), rule('m', seq(named('d', call('y')), named('e', star(call('y')))), typ=['Mid']), leaf()),
     }
 
@@ -154,6 +157,27 @@ def run(tier):
         for t, (s, o) in enumerate(zip(spec[j], im['res'])):
             so = spec_outcome(s)
             text = c['texts'][t]
+            if c['label'] == 'dict-member-names':
+                ref = o.get('asmodel')
+                for how in ('builder', 'generated', 'typedefs'):
+                    got = o.get(how)
+                    if not ref or not got:
+                        continue
+                    ck.count(evaluations=1, traces=1)
+                    def shape(x):         # class names and attribute maps; not the MRO, not the `ast` attribute of dataclass nodes
+                        if isinstance(x, dict) and '__node__' in x:
+                            return {'__node__': x['__node__'], 'attrs': {k: shape(v) for k, v in x['attrs'].items() if k != 'ast'}}
+                        if isinstance(x, dict):
+                            return {k: shape(v) for k, v in x.items()}
+                        if isinstance(x, list):
+                            return [shape(v) for v in x]
+                        return x
+                    if (ref['k'], shape(ref.get('v'))) != (got['k'], shape(got.get('v'))) or got.get('nav'):
+                        ck.violation({'kind': 'parse', 'inputs': {'grammar': c['ebnf'], 'text': text, 'how': how, 'label': c['label']},
+                                      'expected': {'the tree built with synthesized classes (asmodel=True)': ref}, 'observed': got,
+                                      'why': f'the {how} route does not give the same tree as synthesized classes', 'spec': 'PegSem!MkNode (ObjModel): one tree whatever the route'},
+                                     key=c['ebnf'] + how + 'routes')
+                continue
             for how in ('asmodel', 'builder', 'generated', 'typedefs', 'classic'):
                 if how not in o or (c['label'] == 'builtin-named-class' and how != 'classic'):
                     continue
